@@ -81,7 +81,7 @@ def build_sel(c):
     if t == "array":
         return arr(s["v"], "int64")
     if t == "mask":
-        return arr(s["v"], "bool")
+        return arr(s["v"], "bool") if not s.get("aslist") else [common.pyval(b) for b in s["v"]]
 
 
 def fields_obs(o, names):
@@ -95,6 +95,9 @@ def run(c, p):
     if op == "badlen":
         return C[cname](*[arr(c["vals"][f], "int64") for f in names])
     obj = C[cname](*mk_fields(c, cname, c["vals"]))
+    if p.get("kw"):
+        # the same table built with keyword arguments from plain python lists
+        obj = C[cname](**{f: ([pyint(x) for x in c["vals"][f]] if f != "m" else mk_fields(c, cname, c["vals"])[names.index("m")]) for f in names})
     if op == "len":
         return len(obj)
     if op == "getitem":
@@ -195,7 +198,7 @@ def gen(E, p):
             k = E.concretize(E.int("k", 1 if n else 0, p["k"] if n else 0))
             c["sel"] = {"t": t, "v": [E.int(f"i{j}", -n, n - 1) for j in range(k)]}
         elif t == "mask":
-            c["sel"] = {"t": "mask", "v": [E.bool(f"m{i}") for i in range(n)]}
+            c["sel"] = {"t": "mask", "v": [E.bool(f"m{i}") for i in range(n)], "aslist": bool(p.get("aslist"))}
     if op == "concat_mixed":
         for v in c["vals"]["a"]:
             E.assume(z3.And(v >= 0, v <= 99))          # fits the narrow element type of the first table
@@ -297,6 +300,9 @@ def jobs(tier, seed):
         out.append(dict(cls=cls, op="concat", n=2, k=1))
         out.append(dict(cls=cls, op="eq", n=n, k=1))
     out.append(dict(cls="Two", op="concat", n=2, k=2))
+    out.append(dict(cls="Two", op="getitem", sel="mask", n=n, k=2, aslist=True))
+    for op_, extra in (("getitem", dict(sel="mask")), ("getitem", dict(sel="list")), ("eq", {}), ("len", {}), ("iter", {}), ("getitem", dict(sel="slice", s=None))):
+        out.append(dict(dict(cls="Two", op=op_, n=2 if q else 3, k=2, kw=True, nmin=1), **extra))          # (an empty python list has numpy's default element type: not part of the claim)
     out.append(dict(cls="Two", op="concat_mixed", n=2, k=1))
     out.append(dict(cls="Two", op="badlen", n=2))
     out.append(dict(cls="Three", op="badlen", n=2))
